@@ -51,6 +51,13 @@ CLAIMS = {
              "Theorems: sequential value = std chain value for every operation sequence; reduce is a left fold with no assumption "
              "on the operator; for pipelines without eager sites the run-time call sequence is the sequential one; " + K3 +
              "num_threads(1) runs with non-associative operators and exact per-thread call order.", "DESIGN.md 5 C09"),
+    "C10": c("Coq proof (signal closes the source; measure-based termination, every schedule) + endless-source runs",
+             "Theorems: after skip_to_end no pull succeeds; the effective steps remaining after the signal are bounded by the thread "
+             "bound and chunk sizes only; every step stutters or decreases a measure, so no reachable state is stuck, no schedule has "
+             "more than 5*max+2+4*len effective steps, and any prefix followed by round robin completes; sequential find consumes a "
+             "trace up to its first yield. K10: find/any/all/first on an endless iterator source in child processes with timeouts, "
+             "value vs model on a finite prefix, source consumption exact (sequential) / bounded (parallel). Partial: fairness is "
+             "'any prefix then round robin'; free-running consumption bound is generous.", "DESIGN.md 5 C10"),
     "C11": c("Coq proof (settings arithmetic) + differential correspondence + hook observation",
              "Theorems: Exact(c) resolves to c (clamped to a known length) and every later worker is handed exactly that size; "
              "K1 exhaustive grid on the real Runner functions; K3: chunk sizes handed to workers (WorkerBegin hook).",
@@ -70,4 +77,4 @@ CLAIMS = {
 }
 
 _PENDING = "check under construction in this round (Coq model layer not yet built); the property is decidable by the technique, see DESIGN.md section 5"
-NOT_APPLICABLE = {p: _PENDING for p in ["C10", "C13", "C14"]}
+NOT_APPLICABLE = {p: _PENDING for p in ["C13", "C14"]}
